@@ -1,0 +1,39 @@
+//go:build verif
+
+package service
+
+import "sync"
+
+// VerifYield, when set, is called before every acquisition of the replay cache lock with the kind of
+// acquisition ("Lock" or "RLock"). A cooperative scheduler in the verification harness uses it to
+// enumerate interleavings deterministically. It is nil unless a harness installs it.
+var VerifYield func(kind string)
+
+// cacheMutex wraps sync.RWMutex so that every lock acquisition is a yield point.
+type cacheMutex struct {
+	mu sync.RWMutex
+}
+
+func (m *cacheMutex) Lock() {
+	if y := VerifYield; y != nil {
+		y("Lock")
+	}
+	m.mu.Lock()
+}
+
+func (m *cacheMutex) Unlock() { m.mu.Unlock() }
+
+func (m *cacheMutex) RLock() {
+	if y := VerifYield; y != nil {
+		y("RLock")
+	}
+	m.mu.RLock()
+}
+
+func (m *cacheMutex) RUnlock() { m.mu.RUnlock() }
+
+// NewCacheForVerif returns a fresh, empty replay cache that is not the process-wide one and has no
+// cleaner goroutine, so that a harness can replay histories on independent caches.
+func NewCacheForVerif() *Cache {
+	return &Cache{entries: make(map[string]clientEntries)}
+}
